@@ -84,6 +84,9 @@ TRUSTED = [
     'in is C06\'s statement',
     'nuclide lists and %.15e concentrations inside the COMPOSITION blocks are '
     'C10\'s (handed to write_compositions as data)',
+    'the density a COMPOSITION block carries (DENSITY |d| / sum of the '
+    'POINT_WISE concentrations = d) is checked on the written text by the '
+    'sweep and the corpus, not proved: the rescaling itself is C10\'s',
     'harness: generators, impl.T4File reader, t4eval/mcnpref oracles (numeric '
     'sweep of the same ownership statement on real decks), PEG shim replacing '
     'TatSu',
